@@ -23,6 +23,7 @@ import (
 	"github.com/tucats/ego/internal/language/data"
 	"github.com/tucats/ego/internal/language/symbols"
 	"github.com/tucats/ego/internal/language/tokenizer"
+	"github.com/tucats/ego/internal/runtime/profile"
 )
 
 // Config is one execution configuration (the things `ego run` takes from the
@@ -72,6 +73,9 @@ func Init() {
 		os.Setenv("HOME", home)
 		os.Setenv("EGO_PATH", home)
 		_ = settings.Load("ego", "default")
+		// what `ego run` does in prepareRuntime
+		_ = profile.InitProfileDefaults(profile.RuntimeDefaults)
+		settings.SetDefault(defs.EgoPathSetting, home)
 	})
 }
 
